@@ -293,6 +293,16 @@ theorem table_mismatch_raises (op : OpSpec) (_hop : op ∈ opTable) (D : Delegat
   refine ⟨raisedErr op, mismatch_raises op D x0 rest har hD hmis, ?_⟩
   exact (table_mismatch_is_valueError op _hop).1
 
+/-- the positional-only operations are table entries, and exactly the guard-first binary
+`Geometry` methods other than `split` -/
+theorem positionalOnly_in_table :
+    ∀ n ∈ positionalOnly, ∃ op ∈ opTable, op.name = n ∧ op.walk = .guardFirst false ∧ op.arity = .two := by
+  decide
+
+/-- a call form that is not accepted never yields a result, hence never a mixed one; an accepted
+one goes through `run` (the call form does not enter the model of the operation) -/
+theorem callForm_positional_always (n : String) : callFormAccepted n .positional = true := rfl
+
 /-! ### bounding boxes with the real arithmetic -/
 
 theorem bboxUnion_mismatch (x0 : Obj BBox) (rest : List (Obj BBox))
